@@ -85,6 +85,12 @@ def fp(o):
             extra = []
             if cls == 'PolygonPixelRegion':
                 extra = [['origin', fp(getattr(o, 'origin', None))]]
+            if cls == 'RegularPolygonPixelRegion':
+                # state DERIVED from the parameters: the vertices everything
+                # is computed from, and the documented lengths / angles
+                extra = [[k, fp(getattr(o, k, None))] for k in (
+                    'vertices', 'side_length', 'inradius', 'perimeter',
+                    'interior_angle', 'exterior_angle')]
             return ['Region', cls, params, extra, fp(o.meta), fp(o.visual)]
     if o in (operator.and_, operator.or_, operator.xor):
         return ['op', o.__name__]
